@@ -298,13 +298,10 @@ func init() {
 		ei := run.Rule("ERR-ii", "no signature, key or point escapes together with an error (primitives/ed25519)", 20).RequireControl(0)
 		dummy := run.Rule("ERR-i", "a failed check is never followed by a success return (primitives/ed25519)", 20)
 		elen.CheckErr(run, p, dummy, ei, nil)
-		// R = [r]B and A = [a]B use the constant-time fixed-base tables: every lookup (Go or assembly-backed)
-		// scans all entries with the specified selector (same rule as C03), in the portable configuration too
+		// R = [r]B and A = [a]B use the constant-time fixed-base tables; r, k are wide reductions: the
+		// arithmetic building blocks in the portable back ends (masked scans, pack/unpack, multiplication)
 		run.Rule("SIB-scan", "constant-time lookups scan every entry exactly once", 5)
 		esib.CheckMaskedScan(run, p, "SIB-scan")
-		if c.Preload("purego") {
-			run.SetConfig("purego")
-			esib.CheckMaskedScan(run, c.Prog("purego"), "SIB-scan")
-		}
+		arithmeticFoundations(c)
 	}
 }
